@@ -48,10 +48,12 @@ OPEN_STATEMENTS = [
     'distinct indices is 1/8 A_pq A_rs (-1 - B_pB_q + B_pB_r + B_pB_s + B_qB_r + B_qB_s - B_rB_s - B_pB_qB_rB_s) and acts as the '
     'double excitation: -A_pq A_rs on basis states with p, q occupied and r, s empty or vice versa, 0 elsewhere '
     '(bksf_two_body_four_index_formula, bksf_two_body_four_index_sound; hypothesis twoBody4Ok evaluated on every run; the '
-    'selection rule is also checked exactly on the implementation\'s output). NOT proved (correspondence '
+    'selection rule is also checked exactly on the implementation\'s output); _two_body with three distinct indices is the '
+    'number-excitation phase/2 (A_xy B_y + B_x A_xy) on basis states with the spectator vertex occupied, 0 elsewhere, and with '
+    'two distinct indices it is +/- n_p n_q (bksf_two_body_three_index_sound, bksf_two_body_two_index_sound; flags '
+    'twoBody3Ok / twoBody2Ok). NOT proved (correspondence '
     '+ numeric spectral Spec oracle on the outputs only: even-parity-sector eigenvalues of the fermionic operator are '
-    'eigenvalues of the image, 1e-7, connected edge graphs with <= 8 edges, N <= 6): the image formulas of _two_body for 3 / '
-    '2 distinct indices; that the entries selected by the main loop add up to the edge-operator image of the whole '
+    'eigenvalues of the image, 1e-7, connected edge graphs with <= 8 edges, N <= 6): that the entries selected by the main loop add up to the edge-operator image of the whole '
     'Hamiltonian — FALSE in general on the pinned tree: known findings F05-bksf-missing-edge (ValueError when the entry that is '
     'transformed is not the entry whose edges were registered) and F05-bksf-complex-coefficients (non-Hermitian output for '
     'complex Hermitian input); the fermionic identities expressing a^dagger a monomials by Majorana edge operators and the '
